@@ -8,6 +8,7 @@ import asyncio
 import contextlib
 import io
 import json
+import re
 import shlex
 import warnings
 
@@ -126,12 +127,13 @@ class C18(Prop):
                   'a child of the producer. Three full statements are refuted on witnesses found on the unchanged tree (reference followed by '
                   'a digit; two files of an input group with the same basename; add_extension after the resource was mentioned) and proved '
                   'under the excluding hypotheses. The model is tied to the real code by differential runs of generated pipelines on every run.')
-    level_note = ('Trusted: Lean kernel; the hand-written model covers the BashJob subset of the DSL (no cloudfuse, inputs by URL) '
+    level_note = ('Trusted: Lean kernel; the hand-written model covers the BashJob subset of the DSL (no cloudfuse) '
                   'plus PythonJob.call with resource arguments (its PythonResult and pickled code files are not modelled) and agrees with the real classes only as far as the correspondence cases show; what the worker does with input_files / '
                   'output_files is C22/C23; shell execution of the command is not modelled.')
     budget = {'quick': 1500, 'thorough': 25000}
     search_budget = {'quick': 3000, 'thorough': 20000}
-    rule = ('case = a DSL program: read_input / read_input_group (1-3 files), 1-4 bash jobs (names: none, short, equal, 240-260 characters, '
+    rule = ('case = a DSL program: read_input / read_input_group (1-3 files; cloud URLs and LOCAL paths, the same local path often read '
+            'several times), 1-4 bash jobs (names: none, short, equal, 240-260 characters, '
             'with characters safe_str rewrites) with optional declare_resource_group, 1-2 commands '
             'each built from text fragments and references (inputs, group members, own and earlier jobs\' resources, whole groups), '
             'PythonJobs calling a function with resource arguments; PythonResult conversions (as_str / as_repr / as_json, often several of '
@@ -166,8 +168,10 @@ class C18(Prop):
         batchmod.dill = PickleDill      # the real dill is not installed; only dump() of plain tuples / a module-level function is needed
         backend.get_deploy_config = lambda: DC()
 
+        self._uploads = []
+
         async def fake_copy_from_dict(files, **kw):
-            assert not files, 'the check only uses inputs given by URL'
+            self._uploads += [(d['from'], d['to']) for d in files]      # the client-side upload of local inputs
         backend.copy_from_dict = fake_copy_from_dict
 
     # ------------------------------------------------------------------------------------------ generation
@@ -175,6 +179,7 @@ class C18(Prop):
              ' "quoted arg" ', ' _tail', ' a__b ', ' $HOME/', ' -n 5 ']
     IN_PATHS = ['gs://in/data.txt', 'gs://in/x/f.txt', 'gs://in/y/f.txt', 'gs://in/dir/ref.fa', 'gs://in/dir/ref.fa.fai', 'gs://in/my file.txt',
                 "gs://in/it's.txt", 'gs://other/x/g.bed', 'gs://in/trailing/']
+    LOCAL_PATHS = ['/data/ref.fa', '/data/ref.fa', 'data/rel.txt', 'file:///data/s.txt', '/data/other/ref.fa']
     ATTRS = ['ofile', 'out', 'x', 'tmp1', 'res_2']
     TEMPLATES = ['{root}.bed', '{root}.bim', '{root}', '{root}.vcf.gz', '{root}.vcf.gz.tbi', 'fixed.txt', '{root}.v{root}']
 
@@ -225,13 +230,15 @@ class C18(Prop):
     def _random_case(self, rng):
         prog = []
         handles = []          # ('file',) | ('group', idents)
-        for _ in range(rng.choice([0, 1, 1, 2])):
-            if rng.random() < 0.5:
-                prog.append({'op': 'input', 'path': rng.choice(self.IN_PATHS)})
+        local_heavy = rng.random() < 0.3        # the per-sample loop: the same local file read again and again
+        for _ in range(rng.choice([2, 3, 4]) if local_heavy else rng.choice([0, 1, 1, 2])):
+            pool = self.LOCAL_PATHS if (local_heavy and rng.random() < 0.8) or rng.random() < 0.1 else self.IN_PATHS
+            if rng.random() < (0.7 if local_heavy else 0.5):
+                prog.append({'op': 'input', 'path': rng.choice(pool)})
                 handles.append(('file',))
             else:
                 k = rng.choice([1, 2, 2, 3])
-                paths = rng.sample(self.IN_PATHS, k)
+                paths = rng.sample(sorted(set(pool)) + self.IN_PATHS[:2], k)
                 if rng.random() > 0.04:
                     seen, paths2 = set(), []
                     for p in paths:                          # keep basenames distinct unless deliberately colliding
@@ -464,6 +471,7 @@ class C18(Prop):
             return None
         be.validate_file = no_validate
         env = {'handles': [], 'jobs': [], 'results': {}}
+        self._uploads = []
         mentions = []       # (job index, command index, pieces with resolved resource objects)
         out_stmts = []
         pycalls = []        # (job index, call index, the argument objects as passed)
@@ -539,8 +547,11 @@ class C18(Prop):
         uid6 = f'{1:032x}'[::-1][:6]
         remote, local = f'gs://tmp/rt/{uid6}', f'/io/batch/{uid6}'
 
+        uuid_dir = re.compile(re.escape(remote) + r'/[0-9a-f]{8}/inputs/')
+
         def canon(s):
-            return s.replace(remote, '$R').replace(local, '$L')
+            # the fresh uuid directory of a local-input upload is written @U (which uuid a job gets depends on set order)
+            return uuid_dir.sub('$R/@U/inputs/', s).replace(remote, '$R').replace(local, '$L')
         by_async = {id(fj): fj for fj in fb.jobs}
         jobs = []
         xin = []
@@ -576,7 +587,7 @@ class C18(Prop):
                 if url.startswith(pre) and url.endswith('.p'):
                     handed[int(url[len(pre):-2])] = pickle.loads(data)[0]
             jobs[idx]['handed'] = [handed[i] for i in sorted(handed)]
-        return {'status': 'ok', 'pycalls': pycalls, 'jobs': jobs, 'xin': xin, 'canon': canon, 'env': env, 'mentions': mentions, 'outs': out_stmts, 'batch': b,
+        return {'status': 'ok', 'uploads': list(self._uploads), 'pycalls': pycalls, 'jobs': jobs, 'xin': xin, 'canon': canon, 'env': env, 'mentions': mentions, 'outs': out_stmts, 'batch': b,
                 'local': local, 'remote': remote}
 
     def impl(self, c):
@@ -587,7 +598,7 @@ class C18(Prop):
 
         def pairs(ps):
             return ','.join(sorted(f'{canon(a)}>{canon(b)}' for a, b in ps)) or '-'
-        parts = [f"ok xin={pairs(r['xin'])}"]
+        parts = [f"ok xin={pairs(r['xin'])} xup={pairs(r['uploads'])}"]
         for i, j in enumerate(r['jobs']):
             cmds = ','.join(hx(x) for x in j['cmds']) or '-'
             par = ','.join(sorted(str(p) for p in set(j['par']))) or '-'
@@ -649,9 +660,17 @@ class C18(Prop):
                     src = f.source()
                     loc = f._get_path(local)
                     if src is None:
-                        want = (f._input_path, loc)
-                        if want not in jobs[ji]['in']:
-                            return ('plan', f'job {ji} reads input {f._input_path} but input_files lacks {want}')
+                        downloads = [a for a, b in jobs[ji]['in'] if b == loc]
+                        if not downloads:
+                            return ('plan', f'job {ji} reads input {f._input_path} at {loc} but nothing is downloaded there '
+                                            f'(input_files: {jobs[ji]["in"]})')
+                        for a in downloads:
+                            if self._is_local(f._input_path):
+                                if (f._input_path, a) not in r['uploads']:
+                                    return ('plan', f'job {ji} downloads local input {f._input_path} from {a} but the client uploads it to '
+                                                    f'{[t for s_, t in r["uploads"] if s_ == f._input_path]}')
+                            elif a != f._input_path:
+                                return ('plan', f'job {ji} reads input {f._input_path} but downloads {a} to {loc}')
                         continue
                     pi = jidx[id(src)]
                     if pi == ji:
@@ -708,9 +727,10 @@ class C18(Prop):
         # the clause on the submitted specs themselves: whatever a job downloads from the batch's internal (remote tmpdir)
         # location must be uploaded to exactly that location by a job it is submitted as a child of
         for ci, cj in enumerate(jobs):
+            uploaded = {t for _, t in r['uploads']}
             for src, dst in cj['in']:
-                if not src.startswith(remote + '/'):
-                    continue
+                if not src.startswith(remote + '/') or src in uploaded:
+                    continue              # downloaded from outside the batch, or uploaded by the client itself (local input)
                 producers = [pi for pi, pj in enumerate(jobs) if pi != ci and (dst, src) in pj['out']]
                 if not producers:
                     anywhere = [(pi, a) for pi, pj in enumerate(jobs) for a, b in pj['out'] if b == src]
@@ -836,6 +856,11 @@ class C18(Prop):
                     return True
         return False
 
+    @staticmethod
+    def _is_local(path):
+        from urllib.parse import urlparse
+        return urlparse(path).scheme in ('', 'file')
+
     def oracle(self, c, impl_out):
         if impl_out[0].startswith('IMPL-EXC'):
             return impl_out[0]
@@ -865,6 +890,12 @@ class C18(Prop):
                 tags.append('has-' + s['op'])
         if member_only - groups_whole:
             tags.append('has-member-only-reference')
+        in_paths = [s['path'] for s in prog if s['op'] == 'input'] + [p for s in prog if s['op'] == 'igroup' for _, p in s['files']]
+        local_paths = [p for p in in_paths if self._is_local(p)]
+        if local_paths:
+            tags.append('has-local-input')
+        if len(set(local_paths)) < len(local_paths):
+            tags.append('same-local-path-read-more-than-once')
         if convs:
             tags.append('has-converted-result')
         if any({'str', 'repr'} <= v for v in convs.values()):
